@@ -1040,10 +1040,15 @@ def adapt_typehints(
             init_args = parser.instantiate_classes(val)
             return typehint(**init_args)
         if serialize:
-            val = load_value(parser.dump(val, **dump_kwargs.get()))
+            try:
+                val = load_value(parser.dump(val, **dump_kwargs.get()))
+            except ArgumentError as ex:
+                raise_unexpected_value(str(ex), exception=ex)
         elif isinstance(val, (dict, Namespace)):
             if is_subclass_spec(val) and get_import_path(typehint) == val.get("class_path"):
                 val = val.get("init_args")
+                if val is None:
+                    val = {}
             try:
                 val = parser.parse_object(val, defaults=sub_defaults.get() or list_item)
             except ArgumentError as ex:
